@@ -10,5 +10,7 @@ print("|---|---|---|---|---|")
 for r in rows:
     print("| `%s` | %s | %s | %s | %s |" % (r[0], r[1], r[2].replace("|", "\\|"), r[3].replace("|", "\\|"), r[4]))
 print()
-print("%d seeded changes; reported by their own property's check on the first run: %d; after strengthening: %d." % (
-    len(rows), sum(1 for r in rows if r[4] == 'caught'), sum(1 for r in rows if not r[3].startswith('NOT CAUGHT'))))
+print("%d seeded changes.  First run: %d reported by their own property's check, %d only by the check of another property (the one whose clause they break), %d missed.  "
+      "After strengthening the rules: %d reported, %d not (value-level, declared not decided)." % (
+    len(rows), sum(1 for r in rows if r[4] == 'caught'), sum(1 for r in rows if r[4] == 'other-check'), sum(1 for r in rows if r[4] == 'missed'),
+    sum(1 for r in rows if not r[3].startswith('NOT CAUGHT')), sum(1 for r in rows if r[3].startswith('NOT CAUGHT'))))
